@@ -1,15 +1,12 @@
+"""Check for C13: the union of the units every contract area contributes (vf/areas.py).
+Level claimed, engines and notes live in props/entries.json (tools/manifest.py generates MANIFEST.json from it)."""
+import json
+import os
 
-LEVEL = 'proof'
-MANIFEST = {
-    'engine': 'PYVC',
-    'text': 'Deductive: every listed decoder/encoder of the current tree is symbolically executed against its sidecar contract '
-            '(exceptional postcondition "only ValueError escapes", accept-iff-well-formed against X.690 / padding spec functions, '
-            'round-trip postconditions) for all byte strings and all lengths; a failed obligation is replayed natively.',
-    'note': 'Proved: the functions listed in evidence.functions_proved. Assumed (bounded or unchecked): callee contracts listed in '
-            'evidence.assumptions (long_to_bytes/bytes_to_long). Not decided here: PEM/RFC1751 text layers, time bound. '
-            'Trusted: PYVC model of CPython semantics, z3/cvc5.',
-}
+_E = json.load(open(os.path.join(os.path.dirname(__file__), 'entries.json'))).get('C13', {})
+LEVEL = _E.get('level', 'proof')
 TRUSTED = ['CPython semantics as modelled by PYVC (DESIGN.md 2.3)', 'z3 5.1 / cvc5 1.0.3']
+EXPLANATION = _E.get('text', '')
 
 
 def units(tier):
